@@ -4,6 +4,7 @@ package main
 
 import (
 	"go/types"
+	"reflect"
 	"sort"
 
 	"golang.org/x/tools/go/ssa"
@@ -261,6 +262,37 @@ func (x *Exec) mergeStates(all []*State, base, nuniv int, join *ssa.BasicBlock) 
 		}
 		m.env[k] = mergeValues(all, guards, func(st *State) Value { return st.env[k] })
 	}
+	// source-level names: kept where every branch agrees on what the name means
+	m.names = map[string]nameBind{}
+	for n, nb := range all[0].names {
+		same, okAll := true, true
+		for _, st := range all[1:] {
+			o, ok := st.names[n]
+			if !ok || o.cell != nb.cell || o.v.T == nil || !types.Identical(o.v.T, nb.v.T) || (o.v.LV != nil) != (nb.v.LV != nil) {
+				okAll = false
+				break
+			}
+			if !reflect.DeepEqual(o.v, nb.v) {
+				same = false
+			}
+		}
+		if !okAll {
+			continue
+		}
+		if same {
+			m.names[n] = nb
+			continue
+		}
+		if nb.cell || nb.v.LV != nil || nb.v.Fn != nil {
+			continue
+		}
+		n := n
+		func() {
+			defer func() { recover() }()
+			v := mergeValues(all, guards, func(st *State) Value { return st.names[n].v })
+			m.names[n] = nameBind{v, false}
+		}()
+	}
 	// phis of the join block
 	var phis []*ssa.Phi
 	for _, in := range join.Instrs {
@@ -287,6 +319,7 @@ func (x *Exec) mergeStates(all []*State, base, nuniv int, join *ssa.BasicBlock) 
 			return nil
 		}
 		m.env[p] = v
+		m.setName(p.Comment, v, false)
 	}
 	// iterators
 	for k, it := range m.iters {
